@@ -33,7 +33,7 @@ func famC07(g *Gen, o *Out, n int, thorough bool) {
 		case 0:
 			arch = writeAll(roots, bs, true)
 		case 1, 2:
-			dp = []uint64{0, 3, 50}[g.pick(3)]
+			dp = []uint64{0, 3, 50, 4097}[g.pick(4)]
 			arch = writeAll(roots, bs, false, carv2.UseDataPadding(dp), carv2.StoreIdentityCIDs(wsid))
 			if !wsid {
 				// the writer skipped identity blocks: describe what is really in the payload
